@@ -1,6 +1,7 @@
 /-
   What `--extract` writes for a consistent image whose entries have ordinary names.
 -/
+import MotoModel.Proofs.PathNorm
 import MotoModel.Proofs.DiskRuns
 namespace Moto.Disk
 open Moto Moto.Tape
@@ -131,6 +132,66 @@ theorem finish_nice (target : Str) (sides : List Side) (S : RdState) (hall : ∀
   rw [h1]
   exact ⟨rfl, by simp only [finishRead]; exact h2⟩
 
+theorem digits_range : ∀ (n : Nat), ∀ c ∈ digits n, 48 ≤ c ∧ c ≤ 57 := by
+  intro n
+  induction n using Nat.strongRecOn with
+  | _ n ih =>
+    intro c hc
+    rw [digits] at hc
+    split at hc
+    · simp at hc; omega
+    · rcases List.mem_append.mp hc with h | h
+      · exact ih (n / 10) (by omega) c h
+      · simp at h; omega
+
+theorem sideDir_plain (k : Nat) : 47 ∉ (str "side" ++ digits k) ∧ PlainComp (str "side" ++ digits k) := by
+  refine ⟨?_, ?_, ?_, ?_⟩
+  · intro h
+    rcases List.mem_append.mp h with h | h
+    · revert h; decide
+    · have := digits_range k 47 h; omega
+  · intro h; have := congrArg List.head? h; simp [str] at this
+  · intro h; have := congrArg List.head? h; simp [str] at this
+  · intro h; have := congrArg List.head? h; simp [str] at this
+
+theorem niceRec_plain (r : Bytes) (h : NiceRec r) : 47 ∉ fileNameOf ⟨1, r, []⟩ ∧ PlainComp (fileNameOf ⟨1, r, []⟩) := by
+  obtain ⟨_, h47, _, hdot, hdd⟩ := h
+  refine ⟨by simpa using h47, ?_, hdot, hdd⟩
+  unfold fileNameOf
+  simp
+
+/-- **without `--into` no member of a disk archive can be extracted onto the archive**: the members go two
+    levels below the archive's own directory (`sideN/NAME.EXT`) -/
+theorem default_destination_safe (archive : Str) : ∀ (sides : List Side) (i : Nat), (∀ sd ∈ sides, NiceSide sd) →
+    ∀ p ∈ sidesFiles (Tape.targetDirOf archive none) sides i, samePath p.1 archive = false := by
+  intro sides
+  induction sides with
+  | nil => intro i _ p hp; simp [sidesFiles] at hp
+  | cons sd rest ih =>
+    intro i hn p hp
+    simp only [sidesFiles, List.mem_append] at hp
+    rcases hp with hp | hp
+    · unfold sideFiles at hp
+      obtain ⟨j, hj, hjp⟩ := List.mem_filterMap.mp hp
+      cases hf : fileAt sd j with
+      | none => rw [hf] at hjp; simp at hjp
+      | some f =>
+        rw [hf] at hjp
+        simp only [Option.map_some, Option.some.injEq] at hjp
+        rw [← hjp]
+        have hnice := hn sd (by simp) j f (List.mem_range.mp hj) hf
+        obtain ⟨h1, h2⟩ := niceRec_plain f.1 hnice
+        obtain ⟨h3, h4⟩ := sideDir_plain i
+        exact two_below_dirname_not_archive archive _ _ h3 h4 h1 h2
+    · exact ih (i + 1) (fun s hs => hn s (by simp [hs])) p hp
+
+theorem nice_all (img : Image) (h4 : img.length = 4) (hn : ∀ k, k < 4 → NiceSide (img.getD k [])) : ∀ sd ∈ img, NiceSide sd := by
+  intro sd hsd
+  obtain ⟨i, hi, rfl⟩ := List.getElem_of_mem hsd
+  have hi4 : i < 4 := by rw [← h4]; exact hi
+  have e : img.getD i [] = img[i] := by rw [List.getD_eq_getElem?_getD, List.getElem?_eq_getElem hi]; rfl
+  exact e ▸ hn i hi4
+
 /-- **`--extract` of the archive of a consistent image** (ordinary names): returns 0 and writes,
     side after side and in catalog order, `target/sideN/NAME.EXT` with the content of every file
     of the image — nothing else. -/
@@ -151,6 +212,14 @@ theorem extract_consistent (fl : Flavour) (verbose : Bool) (archive : Str) (into
   refine ⟨(finish_nice _ img _ hall hk).1, ?_⟩
   rw [(finish_nice _ img _ hall hk).2]
   rfl
+
+/-- … and without `--into` (the members go beside the archive, under `sideN/`) no member can be the
+    archive: the extraction of a consistent image with ordinary names always succeeds -/
+theorem extract_consistent_default (fl : Flavour) (verbose : Bool) (archive : Str) (img : Image)
+    (h : ImgOk img) (hn : ∀ k, k < 4 → NiceSide (img.getD k [])) :
+    (extract fl verbose archive none (save fl img)).status = .ret 0
+    ∧ (extract fl verbose archive none (save fl img)).writes = sidesFiles (dirname archive) img 0 :=
+  extract_consistent fl verbose archive none img h hn (default_destination_safe archive img 0 (nice_all img h.1 hn))
 
 /-! ### ordinary names -/
 
